@@ -201,6 +201,7 @@ func main() {
 	filesArg := flag.String("files", "", "comma-separated relative files (default: the anchored set)")
 	workers := flag.Int("j", 12, "parallel workers")
 	limit := flag.Int("limit", 0, "max mutants (0 = all)")
+	only := flag.String("only", "", "previous result file: re-run only the mutants that survived there (matched by file, func, op, snippet)")
 	flag.Parse()
 	files := []string{
 		"engine/socket.go", "engine/server.go", "engine/base-server.go",
@@ -218,6 +219,26 @@ func main() {
 	}
 	for i, m := range ms {
 		m.ID = i
+	}
+	if *only != "" {
+		var prev struct {
+			Mutants []*mutant `json:"mutants"`
+		}
+		if b, err := os.ReadFile(*only); err == nil && json.Unmarshal(b, &prev) == nil {
+			keep := map[string]bool{}
+			for _, m := range prev.Mutants {
+				if m.Status == "survived" {
+					keep[m.File+"|"+m.Func+"|"+m.Op+"|"+m.Snippet] = true
+				}
+			}
+			var sel []*mutant
+			for _, m := range ms {
+				if keep[m.File+"|"+m.Func+"|"+m.Op+"|"+m.Snippet] {
+					sel = append(sel, m)
+				}
+			}
+			ms = sel
+		}
 	}
 	if *limit > 0 && len(ms) > *limit {
 		ms = ms[:*limit]
